@@ -222,7 +222,7 @@ Definition mem_step (p : mem_plane) (o : sop) : mem_plane * out :=
   match o with
   | Open a =>
       match bget a (open_nodes p) with
-      | Some _ => (p, (None, RSkipped))            (* the harness opens an agent only once at a time *)
+      | Some _ => (p, (None, RSkipped))            (* a second request for an agent that is open is abandoned *)
       | None =>
           let st := match bget a (idle p) with Some st => st | None => node0 end in
           ({| idle := bdel a (idle p); open_nodes := bput a st (open_nodes p) |}, (None, RUnit))
